@@ -6,6 +6,8 @@ package main
 
 import (
 	"encoding/json"
+	"os"
+	"strconv"
 
 	"github.com/valyala/fasthttp"
 
@@ -20,6 +22,35 @@ func init() {
 	reg("ten_columns", cmdTenColumns)
 	reg("ten_indices", cmdTenIndices)
 	reg("ten_expand", cmdTenExpand)
+	reg("ten_mkorgdirs", cmdTenMkOrgDirs)
+}
+
+// ten_mkorgdirs{orgs:[1,2]}: creates the per-organisation alias / mapping directories below the vtable base
+// directory (environment set-up of a multi-organisation deployment; the open-source tree only creates the
+// directories of organisation 0, so alias files of other organisations could not be written otherwise).
+func cmdTenMkOrgDirs(c Cmd) (interface{}, error) {
+	orgs, _ := c["orgs"].([]interface{})
+	for _, o := range orgs {
+		var id string
+		switch t := o.(type) {
+		case json.Number:
+			id = t.String()
+		case float64:
+			id = strconv.FormatInt(int64(t), 10)
+		default:
+			continue
+		}
+		if id == "0" {
+			continue
+		}
+		if err := os.MkdirAll(vtable.VTableAliasesDir+id, 0o764); err != nil {
+			return nil, err
+		}
+		if err := os.MkdirAll(vtable.VTableMappingsDir+id, 0o764); err != nil {
+			return nil, err
+		}
+	}
+	return nil, nil
 }
 
 func tenResp(ctx *fasthttp.RequestCtx) map[string]interface{} {
